@@ -4,6 +4,7 @@ package main
 
 import (
 	"fmt"
+	"go/constant"
 	"go/token"
 	"go/types"
 	"sort"
@@ -120,6 +121,47 @@ var ruleEsc = &Rule{
 							}
 						} else {
 							forms = append(forms, s)
+						}
+					}
+				}
+			}
+		}
+		// escapes chosen into a variable first (`esc = "\\n"` per case, written
+		// once after the switch): the constants are phi edges
+		for _, qf := range quoteFns {
+			for _, b := range qf.Blocks {
+				for _, ins := range b.Instrs {
+					ph, ok := ins.(*ssa.Phi)
+					if !ok {
+						break
+					}
+					for i, e := range ph.Edges {
+						k, ok := e.(*ssa.Const)
+						if !ok || k.Value == nil || k.Value.Kind() != constant.String {
+							continue
+						}
+						s := constant.StringVal(k.Value)
+						if !strings.HasPrefix(s, `\`) {
+							continue
+						}
+						if len(s) != 2 {
+							forms = append(forms, s)
+							continue
+						}
+						pred := b.Preds[i]
+						found := false
+						for _, f := range edgeFacts(pred, succIndex(pred, b)) {
+							bo, ok := f.Cond.(*ssa.BinOp)
+							if ok && bo.Op == token.EQL && f.Truth {
+								if kk, ok := constInt(bo.Y); ok {
+									pairs[kk] = s
+									found = true
+									break
+								}
+							}
+						}
+						if !found {
+							out.undecided("escape "+s+" in "+fnName(qf), p.pos(ph.Pos()), fnName(qf), "cannot tell for which rune this escape is printed")
 						}
 					}
 				}
